@@ -61,14 +61,19 @@ def contention_case(draw):
     best single pair is often not part of the optimal assignment (greedy != optimal)."""
     n = draw(st.integers(2, 5))
     m = draw(st.integers(2, 5))
-    kind = draw(st.sampled_from(["TimeInterval", "BoundingBox", "mixed"]))
+    kind = draw(st.sampled_from(["TimeInterval", "BoundingBox", "mixed", "time_mixed"]))
     ts = draw(st.sampled_from([2.0**-3, 1.0, 8.0]))
     fs = draw(st.sampled_from([128.0, 8192.0]))
 
     def one():
         a = draw(st.integers(0, 24)) / 8
         ln = draw(st.integers(8, 40)) / 8
-        k = kind if kind != "mixed" else draw(st.sampled_from(["TimeInterval", "BoundingBox", "LineString"]))
+        k = kind if kind not in ("mixed", "time_mixed") else draw(st.sampled_from(["TimeInterval", "BoundingBox", "LineString"]))
+        if kind == "time_mixed":
+            # time-only geometries next to boxes with exactly the same time extent (cross-kind affinity exactly 1) and duplicates
+            a = draw(st.sampled_from([0.0, 0.0, 1.0, 2.0]))
+            ln = draw(st.sampled_from([1.0, 1.0, 0.875, 2.0]))
+            k = draw(st.sampled_from(["TimeInterval", "BoundingBox", "BoundingBox"]))
         if k == "TimeInterval":
             c = [ts * a, ts * (a + ln)]
         elif k == "BoundingBox":
@@ -85,6 +90,49 @@ def contention_case(draw):
 
 def case6():
     return case(maxn=6)
+
+
+@st.composite
+def spike_case(draw):
+    """Lines that turn back in time ('>' and '<' shapes: valid, the validator only orders the first and the last vertex) next to a
+    small geometry a few buffers beyond the turning point: the mitre join of the buffered line reaches up to ~5 buffers past the
+    vertex, so the pair overlaps although the raw time extents are more than two buffers apart."""
+    ts = draw(st.sampled_from([2.0**-3, 1.0, 8.0]))
+    fs = draw(st.sampled_from([128.0, 1024.0]))
+    tb, fb = ts / 8, fs / 8
+    t_turn = ts * draw(st.integers(8, 24)) / 8
+    leg = tb * draw(st.sampled_from([1.0, 2.0, 4.0, 8.0]))
+    gap = fb * draw(st.sampled_from([0.5, 1.0, 2.0, 4.0]))
+    f_mid = fs * draw(st.integers(8, 24)) / 8
+    right = draw(st.booleans())  # '>' : the turning point is the latest time; '<' : the earliest
+    far, near = (t_turn - leg, t_turn) if right else (t_turn + leg, t_turn)
+    kline = draw(st.sampled_from(["LineString", "MultiLineString"]))
+    # a LineString may end at the time it started; a line of a MultiLineString must end strictly later
+    line = [[far, f_mid - gap], [near, f_mid], [far + (tb / 16 if (kline == "MultiLineString" or draw(st.booleans())) else 0.0), f_mid + gap]]
+    gline = {"type": kline, "coordinates": line if kline == "LineString" else [line], "meta": {}}
+    d = tb * draw(st.integers(1, 28)) / 4  # distance of the other geometry from the turning point
+    kk = draw(st.sampled_from(["BoundingBox", "TimeStamp", "Point", "TimeInterval"]))
+    t0 = near + d if right else max(0.0, near - d)
+    w = tb * draw(st.sampled_from([0.25, 1.0]))
+    a, b = (t0, t0 + w) if right else (max(0.0, t0 - w), t0)
+    if kk == "BoundingBox":
+        other = {"type": kk, "coordinates": [a, f_mid - fb / 2, b, f_mid + fb / 2], "meta": {}}
+    elif kk == "TimeInterval":
+        other = {"type": kk, "coordinates": [a, b], "meta": {}}
+    elif kk == "TimeStamp":
+        other = {"type": kk, "coordinates": t0, "meta": {}}
+    else:
+        other = {"type": kk, "coordinates": [t0, f_mid], "meta": {}}
+    pool = [gline, other]
+    for _ in range(draw(st.integers(0, 2))):
+        aa = ts * draw(st.integers(0, 32)) / 8
+        pool.append({"type": "BoundingBox", "coordinates": [aa, f_mid - fs, aa + ts * draw(st.integers(1, 8)) / 8, f_mid + fs], "meta": {}})
+    idx = list(range(len(pool)))
+    src = [0] + draw(st.lists(st.sampled_from(idx), max_size=2))
+    tgt = [1] + draw(st.lists(st.sampled_from(idx), max_size=2))
+    if draw(st.booleans()):
+        src, tgt = tgt, src
+    return {"pool": pool, "src": draw(st.permutations(src)), "tgt": draw(st.permutations(tgt)), "tb": tb, "fb": fb}
 
 
 def brute_best(mat, n, m):
@@ -198,4 +246,5 @@ SUBS = [
     Sub("contention", check, strategy=contention_case, quick=1500, thorough=40000, min_nontrivial=0.0),
     Sub("cover_and_optimal", check, strategy=case, quick=2400, thorough=60000, min_nontrivial=0.15),
     Sub("cover_and_optimal_6", check, strategy=case6, quick=300, thorough=20000, min_nontrivial=0.15),
+    Sub("mitre_spike", check, strategy=spike_case, quick=1500, thorough=30000, min_nontrivial=0.0),
 ]
